@@ -351,6 +351,11 @@ func genC13(r *Rng, tier string, idx int) *Plan {
 	n := r.Range(1, 4)
 	for i := 0; i < n; i++ {
 		t := genTarget(r)
+		if r.Chance(0.12) {
+			// the URL first asked for may be any URL of the application's host - the callback endpoint itself included
+			// (a bookmark, a reload): it is restored like any other
+			t = f.CallbackPath + r.Pick([]string{"", "", "?x=1", "?error=access_denied"})
+		}
 		b := r.Intn(2)
 		p.Ops = append(p.Ops, Op{ID: nid(), Kind: "nav", B: b, Path: t})
 		if r.Chance(0.4) {
